@@ -686,8 +686,8 @@ pub mod fastq {
             [C02,C03,C04,C05,C06|fastq.validate.frame] final(self).same_io(old(self)) && final(self).buf_pos == old(self).buf_pos
                 && final(self).incomplete_pos == old(self).incomplete_pos,
             [C02,C03,C04,C12|fastq.validate.ok] r is Ok ==> vok(final(self).b(), final(self).buf_pos.pos.0 as int) && final(self).state == old(self).state,
-            [C02,C03,C12,C14,C17|fastq.validate.err] r matches Err(e) ==> verr(e, final(self).b(), final(self).buf_pos.pos.0 as int, final(self).position.line as int)
-                && final(self).state == State::Finished,
+            [C02,C03,C12,C14,C17|fastq.validate.err] r matches Err(e) ==> verr(e, final(self).b(), final(self).buf_pos.pos.0 as int, final(self).position.line as int),
+            [C02|fastq.validate.err_is_final] r is Err ==> final(self).state == State::Finished,
 //@body_start
         proof { reveal(chain_body); reveal(may_accept); reveal(may_reject); reveal(verr_body); lemma_chain_bounds(self.b(), self.buf_pos.pos.0 as int); }
 //@end
@@ -816,7 +816,8 @@ pub mod fastq {
                 && final(self).base() == 0 && (r matches Ok(true) || final(self).wf()) && final(self).buf_reader.cap() == old(self).buf_reader.cap(),
             [C02,C03,C04,C14|fastq.init.ok] r matches Ok(more) ==> final(self).buf_reader.errs() == old(self).buf_reader.errs() && final(self).filled()
                 && (more ==> final(self).state == State::New && final(self).b().len() > 0)
-                && (!more ==> final(self).state == State::Finished && (!old(self).poisoned() ==> final(self).f().len() == 0)),
+                && (!more ==> (!old(self).poisoned() ==> final(self).f().len() == 0)),
+            [C02,C04,C20|fastq.init.end_is_final] r matches Ok(false) ==> final(self).state == State::Finished,
             [C02,C03,C14,C17|fastq.init.err] r matches Err(e) ==> final(self).state == State::New
                 && (e matches Error::Io(x) && final(self).buf_reader.errs() == old(self).buf_reader.errs().push(x)),
 //@end
@@ -839,8 +840,8 @@ pub mod fastq {
                     && final(self).base() + final(self).buf_pos.pos.1 == c4(final(self).f(), final(self).gpos())
                     && (final(self).state == State::Finished && final(self).state != old(self).state ==> c4(final(self).f(), final(self).gpos()) == final(self).f().len())
                     && (final(self).buf_pos.pos.1 < final(self).b().len() || final(self).base() + final(self).b().len() == final(self).f().len())),
-            [C02,C03,C04|fastq.resume.end] r matches Ok(false) ==> final(self).state == State::Finished
-                && final(self).buf_reader.errs() == old(self).buf_reader.errs()
+            [C02,C04,C20|fastq.resume.end_is_final] r matches Ok(false) ==> final(self).state == State::Finished,
+            [C02,C03,C04|fastq.resume.end] r matches Ok(false) ==> final(self).buf_reader.errs() == old(self).buf_reader.errs()
                 && (final(self).clean() ==> end_ok(final(self).f(), final(self).gpos())),
             [C14|fastq.resume.err_io] r matches Err(e) ==> (e matches Error::Io(x) ==> final(self).buf_reader.errs() == old(self).buf_reader.errs().push(x)),
             [C09|fastq.resume.err_limit] r matches Err(e) ==> (e is BufferLimit ==> final(self).buf_reader.errs() == old(self).buf_reader.errs()),
@@ -870,7 +871,7 @@ pub mod fastq {
             decreases
                 (if self.base() + self.b().len() <= self.f().len() { self.f().len() - self.base() - self.b().len() } else { 0 }),
                 (if self.b().len() < self.buf_reader.cap() { 0int } else { 1int }),
-//@at depth=3 kw=return nth=0 expect="return "
+//@at depth=3 kw=return nth=0 expect="return self\.\w+\(" call=check_end
                 proof {
                     // the buffer is not full although it was filled: it holds the end of the input
                     let (ff, a, bb, s) = (self.f(), self.base(), self.b(), self.buf_pos.pos.0 as int);
@@ -880,13 +881,13 @@ pub mod fastq {
                         if rp(incomplete_pos) == 3 { lemma_group_lift(ff, a, bb, s); } else { lemma_tail_lift(ff, a, bb, s); }
                     }
                 }
-//@at depth=3 kw=if nth=0 expect="if let Err\(\w+\) = "
+//@at depth=3 kw=if nth=0 expect="if let Err\(\w+\) = " call=grow
                 proof {
                     if self.b().len() > 0 { lemma_stuck_beyond(self.f(), self.base(), self.b(), self.buf_pos, rp(incomplete_pos)); }
                 }
-//@at depth=2 kw=if nth=1 expect="if let Err\(\w+\) = "
+//@at depth=2 kw=if nth=1 expect="if let Err\(\w+\) = " call=fill_buf
             let ghost b_before = self.b();
-//@at depth=2 kw=if nth=2 expect="if let Some\(\w+\) = "
+//@at depth=2 kw=if nth=2 expect="if let Some\(\w+\) = " call=search_incomplete
             proof {
                 lemma_stuck_facts(b_before, self.buf_pos, rp(incomplete_pos));
                 lemma_chain_prefix(b_before, self.b(), self.buf_pos, rp(incomplete_pos));
@@ -912,7 +913,8 @@ pub mod fastq {
             old(self).wf(),
         ensures
             [C02,C03,C04,C05,C06|fastq.next.wf] final(self).wf() && final(self).f() == old(self).f(),
-            [C02,C03,C04,C06|fastq.next.end] r is None ==> final(self).buf_reader.errs() == old(self).buf_reader.errs() && final(self).state == State::Finished
+            [C02,C04,C20|fastq.next.end_is_final] r is None ==> final(self).state == State::Finished,
+            [C02,C03,C04,C06|fastq.next.end] r is None ==> final(self).buf_reader.errs() == old(self).buf_reader.errs()
                 && (old(self).state == State::Finished || old(self).poisoned() || !old(self).clean() || end_ok(old(self).f(), old(self).cursor())),
             [C02,C04,C20|fastq.next.end_is_sticky] old(self).state == State::Finished ==> r is None,
             [C02,C03,C04,C06,C12|fastq.next.record] r matches Some(Ok(rec)) ==> final(self).buf_reader.errs() == old(self).buf_reader.errs()
@@ -976,7 +978,7 @@ pub mod fastq {
             to.line == true_line(old(self).f(), to.byte as int),
         ensures
             [C02,C03,C04,C05,C06|fastq.seek.frame] final(self).f() == old(self).f() && final(self).buf_policy == old(self).buf_policy,
-            [C03,C05|fastq.seek.positioned] r is Ok ==> final(self).wf() && final(self).state == State::Positioned && final(self).incomplete_pos is None
+            [C04,C05|fastq.seek.positioned] r is Ok ==> final(self).wf() && final(self).state == State::Positioned && final(self).incomplete_pos is None
                 && final(self).position == *to && final(self).gpos() == to.byte && final(self).cursor() == to.byte
                 && final(self).buf_reader.errs() == old(self).buf_reader.errs(),
             [C09|fastq.seek.capacity] final(self).buf_reader.cap() == old(self).buf_reader.cap(),
